@@ -99,6 +99,12 @@ def run(tier: str) -> int:
             sc = Case(d, small, ver, **opts)
             out2 = sc.cmp(ctx)
             key = "C02-control-in-operand" if prog_control_in_operand(small) else None
+            if key is None and opts.get("scratch_slots"):
+                # the optimiser's dead-store defect (C03 known finding) corrupts the stack under retsub
+                from c03 import dead_store_deleted
+                twin = Case(d, small, ver, **dict(opts, scratch_slots=False))
+                if twin.ok and twin.cmp(ctx).startswith("agree") and dead_store_deleted(twin.teal, sc.teal):
+                    key = "C02-dead-store-optimised"
             rep.violation(f"subroutine program: source semantics and real TEAL disagree: {out2[:300]}",
                           sc.replay_dict(ctx, {"compare": out2, "original_recipe": case.sexp[:2000]}), key=key)
 
